@@ -24,7 +24,8 @@ singlePred`), driven exactly as `internal/engine/wazevo/frontend/lower.go: lower
   difference, the alias when all predecessors agree (the temporary value STAYS the block's definition: later
   uses print the aliased value id), else the new block parameter and one more argument on every predecessor's
   branch.  The recursion depth of the Go code is bounded by the number of blocks (a cycle of blocks contains a
-  block with several predecessors, which is defined on the first visit); the model recurses on that bound.
+  block with several predecessors, which is defined on the first visit: twice the number of blocks); the model
+  recurses on that bound.
 * `LSt` is `loweringState`: value stack (top first, values with their types), control frames (innermost first),
   `unreachable`, `unreachableDepth`.
 * `lowerCF : Function → SsaPass.Func`: the blocks of the builder; a jump to the builder's return block
@@ -275,8 +276,10 @@ def findValue : Nat → Bld → Nat → Ty → Nat → TV × Bld
 
 def Bld.varTy (b : Bld) (var : Nat) : Ty := b.varTys.getD var .i32
 
-/-- the recursion bound used for `findValue` -/
-def Bld.depth (b : Bld) : Nat := b.blocks.length + 2
+/-- the recursion bound used for `findValue`: on the path of the recursion (each call is on a predecessor of the
+block of the previous one) a block occurs at most twice, and the path ends at the second visit of a sealed block with
+several predecessors (defined at the first) -/
+def Bld.depth (b : Bld) : Nat := 2 * b.blocks.length + 3
 
 /-- `MustFindValue(variable)` -/
 def Bld.mustFind (b : Bld) (var : Nat) : TV × Bld := findValue b.depth b var (b.varTy var) b.cur
